@@ -19,7 +19,7 @@ func variants() []Variant {
 		Name: "identity",
 		Issues: []IssueSpec{
 			{"tka", "uta", 0, 2, 3, true},
-			{"tkb", "utb", 0, 0, 2, false},
+			{"tkaa", "utaa", 0, 0, 2, false},
 			{"tka", "utc", 0, 2, 3, true}, // symbol of the first, fresh min unit
 			{"tkc", "uta", 0, 2, 3, true}, // fresh symbol, min unit of the first
 			{"uta", "tka", 0, 2, 3, true}, // crossed with the first
@@ -42,8 +42,8 @@ func variants() []Variant {
 			Issues: []IssueSpec{
 				{"tka", "uta", sc, 2, 3, true},
 				{"tka", "uta", sc, 2, 2, false},
-				{"tkb", "utb", sc, 0, 2, true},
-				{"tkb", "utc", sc, 3, 2, true}, // initial above maximum: never acceptable
+				{"tkaa", "utaa", sc, 0, 2, true},
+				{"tkaa", "utc", sc, 3, 2, true}, // initial above maximum: never acceptable
 			},
 			IssueBy:      []string{"A"},
 			EditNothing:  true,
@@ -66,7 +66,7 @@ func variants() []Variant {
 				Name: fmt.Sprintf("fees-tax%s-mint%s", tax, ratio),
 				Issues: []IssueSpec{
 					{"tka", "uta", 1, 2, 3, true},
-					{"tkaa", "utb", 0, 0, 2, true},
+					{"tkaa", "utaa", 0, 0, 2, true},
 				},
 				IssueBy:  []string{"A", "B"},
 				Mints:    []MintSpec{{"1", "self"}, {"room", "other"}},
